@@ -206,6 +206,26 @@ fn f16_convention() -> F16 {
     })
 }
 
+/// Does this tree spell the literal of an OpSpecConstant by its declared type (like OpConstant) or
+/// as the raw unsigned word? The statement prescribes the typed spelling for OpConstant only and
+/// "every operand in order" + readability for the rest, so both are admissible; learned by a probe.
+fn spec_constant_typed() -> bool {
+    static C: std::sync::OnceLock<bool> = std::sync::OnceLock::new();
+    *C.get_or_init(|| {
+        catch(|| {
+            let mut b = dr::Builder::new();
+            let t = b.type_int(32, 1);
+            let c = b.spec_constant_bit32(t, 0xffff_ffff);
+            let text = b.module().disassemble();
+            text.lines().find(|l| l.contains("OpSpecConstant") && l.contains(&format!("%{} =", c))).and_then(|l| tokenize(l).last().cloned())
+        })
+        .ok()
+        .flatten()
+        .map(|tok| tok == "-1")
+        .unwrap_or(false)
+    })
+}
+
 fn float_bits32(t: &str, width: u32) -> Vec<u32> {
     // every word the token may stand for under the conventions this tree may use
     let Some(f) = tok_f32(t) else { return vec![] };
@@ -277,7 +297,7 @@ fn expected_tokens(inst: &dr::Instruction, cx: &Ctx7, in_block: bool) -> Option<
     }
     let opname = inst.class.opname;
     for (i, o) in inst.operands.iter().enumerate() {
-        if opname == "Constant" && i == 0 {
+        if (opname == "Constant" || (opname == "SpecConstant" && spec_constant_typed())) && i == 0 {
             if let Some(s) = typed_literal(inst.result_type.and_then(|x| cx.tc.map.get(&x).copied()), o) {
                 t.push(s);
                 continue;
@@ -440,7 +460,7 @@ impl<'a> Reader<'a> {
             }
             K::LiteralContextDependentNumber => {
                 let ty = rtype.and_then(|t| self.cx.tc.map.get(&t).copied());
-                self.literal(ty, gi.opname == "Constant")?;
+                self.literal(ty, gi.opname == "Constant" || (gi.opname == "SpecConstant" && spec_constant_typed()))?;
             }
             K::PairLiteralIntegerIdRef => {
                 let sel = match self.ops.first() {
@@ -575,7 +595,7 @@ fn read_line(toks: &[String], cx: &Ctx7, in_block: bool) -> Option<dr::Instructi
 
 fn has_nan(m: &dr::Module, tc: &TyCtx) -> bool {
     m.all_inst_iter().any(|i| {
-        i.class.opname == "Constant"
+        (i.class.opname == "Constant" || (i.class.opname == "SpecConstant" && spec_constant_typed()))
             && matches!(i.result_type.and_then(|t| tc.map.get(&t)), Some(Ty::Float(_)))
             && match i.operands.first() {
                 Some(Operand::LiteralBit32(v)) => f32::from_bits(*v).is_nan(),
